@@ -4,6 +4,7 @@ Inline tokenizer for mistletoe.
 
 import html
 import re
+from mistletoe import core_tokens
 
 
 # replacement for html._charref which matches only entitydefs ending with ';',
@@ -28,6 +29,7 @@ def tokenize(string, token_types):
         return make_tokens(token_buffer, 0, len(string), string, fallback_token)
     finally:
         html._charref = _stdlib_charref
+        core_tokens._code_matches = []
 
 
 def find_tokens(string, token_types, fallback_token):
